@@ -137,7 +137,8 @@ function genSem(rng, params) {
     // (sometimes a tuple whose rest is `unknown` / `any`: the `any[]` shortcut of the materialisation must keep the prefix)
     const anyRest = () => [A("tuple"), Array.from({ length: 1 + rng.below(2) }, () => genLeaf(rng)), A(rng.pick(["unknown", "any"]))];
     const ms = Array.from({ length: 2 + rng.below(3) }, () => (rng.chance(1, 8) ? anyRest() : rng.chance(1, 2) ? genLeaf(rng) : genSubTy(rng, 1 + rng.below(2), sc)));
-    const a = [A("union"), ...ms];
+    // (sometimes the top type on the left: TypeScript answers `unknown`, and the negation that reaches the printer must not panic)
+    const a = rng.chance(1, 10) ? A(rng.pick(["unknown", "any"])) : [A("union"), ...ms];
     const r = rng.below(5);
     const b = r === 0 ? rng.pick(ms) : r === 1 ? mutateTy(rng, rng.pick(ms), sc) : r === 2 ? [A("union"), rng.pick(ms), rng.pick(ms)] : r === 3 ? genLeaf(rng) : genSubTy(rng, 1, sc);
     expr = [A("exclude"), a, b]; text = `Exclude<${tsOf(a)}, ${tsOf(b)}>`; types = [a, b];
